@@ -176,7 +176,7 @@ def judge(ctx, traces, label):
     p = ctx.path("conc_%s.json" % label)
     with open(p, "w") as f:
         json.dump({"names": names or ["none"], "maxnp": max(t["np"] for t in traces), "traces": traces}, f)
-    run = ctx.tlc("Trace_Concurrent", TRACE_CFG, env={"TRACE_FILE": p}, label="judge " + label)
+    run = ctx.tlc("Trace_Concurrent", TRACE_CFG, env={"TRACE_FILE": p, "MAXNP": max(t["np"] for t in traces)}, label="judge " + label)
     if run.distinct != 2 * len(traces):
         raise core.MachineryError("judge visited %d states for %d traces" % (run.distinct, len(traces)))
     ctx.traces += len(traces)
